@@ -1429,6 +1429,63 @@ def make_render_safe(body):
 
 # ================================================================== check / replay
 
+# ---- source-side reading of an inline formatting context: the text items come from the DOCUMENT, not from the box tree,
+# so a text box that is dropped while the tree is built (and with it its preserved white space) is seen
+
+def ifc_source_doc(rng):
+    # (`break-spaces` is not a value this version accepts: the declaration is dropped, so it is left out here, where the
+    # expected text is computed from the DECLARED value)
+    WS = ['normal', 'nowrap', 'pre', 'pre-wrap', 'pre-line']
+    ws = rng.choice(WS)
+    lead = rng.choice([' ', ' ', ' ', '  ', '\t', '\n', ' \n', '', 'a '])
+    mid = rng.choice([' ', '', '  ', ' c ', '\n', ' \t'])
+    tail = rng.choice(['', ' ', 'd', ' d ', '\n'])
+    inner_ws = rng.choice([None, None, ws, rng.choice(WS)])
+    tag = rng.choice(['b', 'span', 'em'])
+    st = '' if inner_ws is None else ' style="white-space:%s"' % inner_ws
+    iw = ws if inner_ws is None else inner_ws
+    src = [('t', lead, ws, 0), ('t', 'ab', iw, 1), ('t', mid, ws, 2), ('t', 'ef', iw, 3), ('t', tail, ws, 4)]
+    html = ('<style>body{margin:0;font-family:weasyprint;font-size:10px;line-height:10px}</style>'
+            '<article style="white-space:%s">%s<%s%s>ab</%s>%s<%s%s>ef</%s>%s</article>'
+            % (ws, lead, tag, st, tag, mid, tag, st, tag, tail))
+    return html, [it for it in src if it[1] != ''], (ws, inner_ws, lead, mid, tail)
+
+
+def judge_ifc_source(src, ifcs):
+    e = phase2(phase1(src))
+    act = []
+    for ifc in ifcs:
+        for it in ifc['items']:
+            if it[0] == 't':
+                act.extend([c, c == ' ' and it[2] in COLLAPSING] for c in it[4])
+            else:
+                act.append(['￼', False])
+    a = phase2(act)
+    return None if e == a else (e, a)
+
+
+def stream_ifc_source(run, rng, thorough):
+    docs = [ifc_source_doc(rng) for _ in range(1500 if thorough else 300)]
+    outs = run_impl_safe('build_and_render', [dict(html=h, render=False) for h, _, _ in docs], limit=20)
+    n = 0
+    for (html, src, key), (st, o) in zip(docs, outs):
+        if st != 'ok':
+            continue
+        n += 1
+        bad = judge_ifc_source(src, o['pre']['ifcs'])
+        if bad:
+            run.fail('text of an inline formatting context is not the white-space-processed text of the document: expected %r, '
+                     'box tree has %r (white-space %s, inner %s)' % (bad[0], bad[1], key[0], key[1]),
+                     {'stream': 'ifc-source', 'html': html, 'src': [list(x) for x in src], 'expected': bad[0], 'got': bad[1]},
+                     signature='text:ifc-source')
+            break
+    run.count('ifc-source', n, [k for _, _, k in docs], samples=[docs[0][0][-200:]])
+    run.stream_info('ifc-source', rule='one block container under each white-space value holding: leading text (a lone space, '
+                    'spaces, tab, line feed, none), an inline element (own white-space or inherited), text, an inline element, '
+                    'trailing text; the text of the built box tree = the reference processing (CSS Text 3 4.1) of the text '
+                    'nodes of the DOCUMENT')
+
+
 def check(run):
     rng = random.Random(run.seed * 7919 + 8)
     thorough = run.tier == 'thorough'
@@ -1461,6 +1518,7 @@ def check(run):
     stream_table_ws(run, rng, thorough)
     stream_display(run, rng, thorough)
     stream_documents(run, rng, thorough)
+    stream_ifc_source(run, rng, thorough)
 
 
 def replay(data):
@@ -1468,6 +1526,11 @@ def replay(data):
     stream = d.get('stream')
     run = common.Run('C08', 'quick', 0)
     run.known = []
+    if stream == 'ifc-source':
+        (st, o), = common.run_impl('impl_c08', 'build_and_render', [dict(html=d['html'], render=False)], limit=120)
+        bad = judge_ifc_source([tuple(x) for x in d['src']], o['pre']['ifcs']) if st == 'ok' else (st, o)
+        print('replay:', bad)
+        return 1 if bad else 0
     if 'html' in d and stream in ('doc-build', 'doc-render', 'probe'):
         # the body tree is not stored: judge what does not need it (well-formedness, inline formatting contexts)
         (st, o), = common.run_impl('impl_c08', 'build_and_render', [dict(html=d['html'], render=stream == 'doc-render')], limit=120)
